@@ -202,7 +202,7 @@ def _cumsum_callee(en, seen):
   """_dot_cumsum(y, axis=0, reverse): prefix / suffix sums of y as ghost C(k) = sum_{h<k} y[h]."""
   from dinosaur import jax_numpy_utils as jnu
 
-  def h(en_, y, axis, reverse=False, sharding=None):
+  def h(en_, y, axis, reverse=False):
     if not arrays._is_seq(y) or axis != 0:
       raise E.Unsupported('_dot_cumsum outside column mode')
     key = id(y.get)
@@ -219,8 +219,8 @@ def _cumsum_callee(en, seen):
     if reverse:
       return E.SymSeq(y.length, lambda g: C(n) - C(E.to_z3(g)), z3.RealSort(), 'reverse_cumsum')
     return E.SymSeq(y.length, lambda g: C(E.to_z3(g) + 1), z3.RealSort(), 'cumsum')
-  en.contracts[E._callable_key(jnu._dot_cumsum)] = h
-  en.trusted.add('callee contract: _dot_cumsum(y, 0)[g] == sum_{h<=g} y[h], reverse: sum_{h>=g} y[h]  (single-device kernel under contract in C13, sharded schedule in C07)')
+  en.contracts[E._callable_key(jnu._single_device_dot_cumsum)] = h
+  en.trusted.add('callee contract: _single_device_dot_cumsum(y, 0)[g] == sum_{h<=g} y[h], reverse: sum_{h>=g} y[h] -- discharged in C13; cumsum / reverse_cumsum / _dot_cumsum run from source with sharding=None (sharded schedule: C07)')
 
 
 def partial_sum_lemma(en: E.Engine):
